@@ -31,8 +31,9 @@ VARIABLES l,      \* next trace line
           nfail,  \* number of FAIL tuples printed so far
           evlog,  \* per collection: <<line, event>> of every mutation so far (concurrent traces)
           verlog, \* per collection: <<line, event>> describing every version a key has had
-          auxs    \* last recorded result of every SQL query / view query, per collection and kind
-vars == <<l, docs, obs, dumps, clock, start, nfail, evlog, verlog, auxs>>
+          auxs,   \* last recorded result of every SQL query / view query, per collection and kind
+          vdef    \* which variant of the design document each collection has ("A" / "B", see aux.go)
+vars == <<l, docs, obs, dumps, clock, start, nfail, evlog, verlog, auxs, vdef>>
 
 B(tok) == BodyTab[tok]
 XV(x)  == [t |-> x.t, cas |-> x.cas, crc |-> B(x.crc)]
@@ -118,8 +119,9 @@ Indexed(d) == HasBody(d) \/ HasXattrs(d)
 (* a body that is flagged JSON but is not JSON (a caller error): what the map function makes of it is not specified *)
 BadJson(d) == HasBody(d) /\ d.json /\ d.body.k \in {"raw", "unk"}
 (* view rows in JSON collation order of the emitted key, then document id *)
-ViewSeq(ds) ==
-    LET S == {k \in Keys : Indexed(ds[k]) /\ ~BadJson(ds[k])}
+Emits(d, variant) == variant = "A" \/ VV(d) = "J1" \/ d.xa["_s"].t # "-"
+ViewSeqV(ds, variant) ==
+    LET S == {k \in Keys : Indexed(ds[k]) /\ ~BadJson(ds[k]) /\ Emits(ds[k], variant)}
         less(a, b) == \/ TokRank(VV(ds[a])) < TokRank(VV(ds[b]))
                       \/ (VV(ds[a]) = VV(ds[b]) /\ TokRank(ds[a].xa["_s"].t) < TokRank(ds[b].xa["_s"].t))
                       \/ (VV(ds[a]) = VV(ds[b]) /\ ds[a].xa["_s"].t = ds[b].xa["_s"].t /\ a = "k1") IN
@@ -128,7 +130,8 @@ ViewSeq(ds) ==
     ELSE IF S = {} THEN <<>> ELSE LET k == CHOOSE x \in S : TRUE IN <<VRow(k, ds[k])>>
 Rev(s) == IF Len(s) = 0 THEN <<>> ELSE [i \in 1..Len(s) |-> s[Len(s) + 1 - i]]
 SelSeq(s, P(_)) == SelectSeq(s, P)
-ExpectedAux(kind, ds) ==
+ExpectedAuxV(kind, ds, variant) ==
+    LET ViewSeq(x) == ViewSeqV(x, variant) IN
     CASE kind = "q-all" -> LET ks == KeySeq({k \in Keys : HasBody(ds[k])}) IN
                            IF ks = <<>> THEN <<>> ELSE [i \in 1..Len(ks) |-> QRow(ks[i], ds[ks[i]])]
       [] kind = "q-v" -> LET ks == KeySeq({k \in Keys : HasBody(ds[k]) /\ ds[k].body.k = "obj" /\ ds[k].body.o["v"] = "J1"}) IN
@@ -141,8 +144,8 @@ ExpectedAux(kind, ds) ==
       [] kind = "viewkey" -> SelSeq(ViewSeq(ds), LAMBDA r : r.vals[1] = "J1" /\ r.vals[2] = "-")
       [] OTHER -> <<>>
 BriefRows(s) == [i \in 1..Len(s) |-> <<s[i].id, BB(s[i].body), s[i].vals, [x \in XNames |-> s[i].xa[x].t]>>]
-CountOK(rows, ds) ==
-    LET n == Len(ViewSeq(ds)) IN
+CountOKV(rows, ds, variant) ==
+    LET n == Len(ViewSeqV(ds, variant)) IN
     \/ (n = 0 /\ rows = <<>>)
     \/ (Len(rows) = 1 /\ Len(rows[1].vals) = 3 /\ rows[1].vals[3] = ToString(n))
 
@@ -156,6 +159,7 @@ Init == /\ l = 1
         /\ evlog = [c \in Colls |-> <<>>]
         /\ verlog = [c \in Colls |-> <<>>]
         /\ auxs = [c \in Colls |-> [kd \in AuxKinds |-> <<>>]]
+        /\ vdef = [c \in Colls |-> "A"]
 
 Reset(e) ==
     /\ docs' = [c \in Colls |-> [k \in Keys |-> AbsentDoc]]
@@ -167,6 +171,7 @@ Reset(e) ==
     /\ evlog' = [c \in Colls |-> <<>>]
     /\ verlog' = [c \in Colls |-> <<>>]
     /\ auxs' = [c \in Colls |-> [kd \in AuxKinds |-> <<>>]]
+    /\ vdef' = [c \in Colls |-> "A"]
 
 (* new observation table after line e *)
 NewObs(e) ==
@@ -316,6 +321,10 @@ Call(e) ==
         \* ---- SQL queries see exactly the live documents (C19); view queries equal the map function applied
         \*      to the current documents, in collation order, whatever the index has been through (C12)
         na == NewAuxs(e)
+        nv == IF e.op = "SwapDDoc" /\ e.r.cls = "ok" THEN [vdef EXCEPT ![c] = IF @ = "A" THEN "B" ELSE "A"] ELSE vdef
+        ExpectedAux(kd, ds) == ExpectedAuxV(kd, ds, nv[c])
+        CountOK(rows, ds) == CountOKV(rows, ds, nv[c])
+        ViewSeq(ds) == ViewSeqV(ds, nv[c])
         auxOn == \E i \in 1..Len(e.aux) : TRUE
         fAux ==
             IF ~auxOn /\ \A kd \in AuxKinds : auxs[c][kd] = <<>> THEN 0
@@ -327,11 +336,12 @@ Call(e) ==
         fFresh2 ==
             Cardinality({i \in 1..Len(e.aux) : e.aux[i].kind = "viewfresh"
                 /\ ~(\E k2 \in Keys : BadJson(newDocs[e.aux[i].c][k2]))
-                /\ (e.aux[i].err # "" \/ RowsOf(e.aux[i].rows) # ExpectedAux("viewfresh", newDocs[e.aux[i].c]))
-                /\ Fail({"C12"}, e, <<"aux", "viewfresh", e.aux[i].c>>, BriefRows(ExpectedAux("viewfresh", newDocs[e.aux[i].c])),
+                /\ (e.aux[i].err # "" \/ RowsOf(e.aux[i].rows) # ExpectedAuxV("viewfresh", newDocs[e.aux[i].c], "A"))
+                /\ Fail({"C12"}, e, <<"aux", "viewfresh", e.aux[i].c>>, BriefRows(ExpectedAuxV("viewfresh", newDocs[e.aux[i].c], "A")),
                         IF e.aux[i].err # "" THEN e.aux[i].err ELSE BriefRows(RowsOf(e.aux[i].rows)))})
     IN
     /\ docs' = newDocs
+    /\ vdef' = nv
     /\ auxs' = na
     /\ obs' = no
     /\ dumps' = nd
@@ -426,7 +436,7 @@ Feeds(e) ==
             IN IF f.ckpt = "" THEN 0 ELSE fSkip + fCkpt
         total == SumOver(1..Len(fs), chk) + SumOver(ids, chk15)
     IN
-    /\ UNCHANGED <<docs, obs, dumps, clock, start, evlog, verlog, auxs>>
+    /\ UNCHANGED <<docs, obs, dumps, clock, start, evlog, verlog, auxs, vdef>>
     /\ nfail' = nfail + total
 
 
@@ -475,7 +485,7 @@ Reopen(e) ==
         fTimer == IF ~opened THEN 0 ELSE Fr(e.anyexp => e.timerarmed, <<"pending-expiration-not-rearmed", e.site>>, TRUE, e.timerarmed)
     IN
     /\ nfail' = nfail + fOpen + fAtomic + fReaders + fIdent + fMarks + fTimer
-    /\ UNCHANGED <<docs, obs, dumps, clock, start, evlog, verlog, auxs>>
+    /\ UNCHANGED <<docs, obs, dumps, clock, start, evlog, verlog, auxs, vdef>>
 
 
 ---------------------------------------------------------------------------
@@ -506,7 +516,7 @@ Stress(e) ==
         fCas == Fs(incr(e.commit), {"C04", "C08"}, <<"commit-order-not-cas-order">>, "increasing", Len(e.commit))
     IN
     /\ nfail' = nfail + fOrder + fLive + fSkip + fCkpt + fCas
-    /\ UNCHANGED <<docs, obs, dumps, clock, start, evlog, verlog, auxs>>
+    /\ UNCHANGED <<docs, obs, dumps, clock, start, evlog, verlog, auxs, vdef>>
 
 Next ==
     /\ l <= Len(TraceLog)
